@@ -138,7 +138,7 @@ Definition ser_doc (d : sdoc) : str :=
                  [SEl (s2l "head") (d_head_attrs d) false (d_head d); SEl (s2l "body") (d_body_attrs d) false (d_body d)]).
 
 (* get_title: the .string of the first <title> element, in document order, that is not part of embedded SVG / MathML
-   (the <title> of a graphic is its tooltip); "" when there is none.  .string of BeautifulSoup: the text of an only text
+   (the <title> of a graphic is its tooltip) nor of a <template>; "" when there is none.  .string of BeautifulSoup: the text of an only text
    child, through chains of only children; None (here: "") otherwise. *)
 Fixpoint node_string (n : snode) : option str :=
   match n with
@@ -147,11 +147,14 @@ Fixpoint node_string (n : snode) : option str :=
   | SEl _ _ _ _ => None
   end.
 
+(* a <title> inside embedded SVG / MathML is the graphic's tooltip, and what is inside a <template> is not part of the page *)
+Definition holds_no_page_title (name : str) : bool := is_foreign name || str_eqb name (s2l "template").
+
 Fixpoint first_title (n : snode) : option str :=
   match n with
   | SText _ => None
   | SEl name _ _ children =>
-      if is_foreign name then None
+      if holds_no_page_title name then None
       else if str_eqb name (s2l "title") then Some (match node_string n with Some s => s | None => [] end)
       else (fix go (l : list snode) : option str :=
               match l with
